@@ -20,6 +20,7 @@ import IsoVerif.Driver.C07
 import IsoVerif.Driver.C11
 import IsoVerif.Driver.C01
 import IsoVerif.Driver.C04
+import IsoVerif.Driver.C04Sim
 
 namespace IsoVerif.Driver
 
@@ -48,5 +49,6 @@ def allOps : List (String × Handler) :=
   ++ prefixOps "C11" C11.ops
   ++ prefixOps "C01" C01.ops
   ++ prefixOps "C04" C04.ops
+  ++ prefixOps "C04" C04Sim.ops
 
 end IsoVerif.Driver
